@@ -225,6 +225,7 @@ type World struct {
 	TrigLog  map[string]*[]TrigEvent
 	Poisoned bool // a panic happened inside the collection: never touch it again
 	OwnReads bool // inside a body, re-read what was just written: must still be the committed value
+	Sched    bool // bodies run concurrently under the scheduler: the model is the INITIAL state, so checks against it are off
 	Bulk     map[uint32]bool
 	ch       commit.Channel
 	tick     chan time.Time
@@ -499,11 +500,11 @@ func (w *World) body(acts []Act, fail bool, p *pending, res *TxnRes) func(txn *c
 				}
 			case "del":
 				_, live := w.M.Live[a.Off]
-				if got := txn.DeleteAt(a.Off); got != live {
+				if got := txn.DeleteAt(a.Off); got != live && !w.Sched {
 					res.Viol = append(res.Viol, eng.Violation{Assert: "deleteat/result", Witness: "DeleteAt result differs from liveness",
 						Detail: fmt.Sprintf("DeleteAt(%d) returned %v, row live=%v", a.Off, got, live)})
 				}
-				if live {
+				if live || w.Sched {
 					p.del = append(p.del, a.Off)
 				}
 			case "delall":
@@ -529,7 +530,7 @@ func (w *World) body(acts []Act, fail bool, p *pending, res *TxnRes) func(txn *c
 				} else {
 					err = txn.UpsertKey(a.Key, fn)
 				}
-				first := !touched[a.Key]
+				first := !touched[a.Key] && !w.Sched
 				touched[a.Key] = true
 				if a.FailCb && called {
 					p.dropWritesAt(got)
@@ -574,7 +575,7 @@ func (w *World) body(acts []Act, fail bool, p *pending, res *TxnRes) func(txn *c
 					w.applyWrites(txn, r, got, a.W, p)
 					return nil
 				})
-				if !touched[a.Key] {
+				if !touched[a.Key] && !w.Sched {
 					if (err != nil) != (len(rows) == 0) {
 						res.Viol = append(res.Viol, eng.Violation{Assert: "key/querykey-result", Witness: "QueryKey error differs from key existence",
 							Detail: fmt.Sprintf("QueryKey(%q) err=%v, rows holding key=%v", a.Key, err, rows)})
@@ -598,7 +599,7 @@ func (w *World) body(acts []Act, fail bool, p *pending, res *TxnRes) func(txn *c
 					}
 					return nil
 				})
-				if !touched[a.Key] && (err != nil) != (len(rows) == 0) {
+				if !touched[a.Key] && !w.Sched && (err != nil) != (len(rows) == 0) {
 					res.Viol = append(res.Viol, eng.Violation{Assert: "key/querykey-result", Witness: "QueryKey error differs from key existence",
 						Detail: fmt.Sprintf("QueryKey(%q) for re-key err=%v, rows=%v", a.Key, err, rows)})
 				}
@@ -612,7 +613,7 @@ func (w *World) body(acts []Act, fail bool, p *pending, res *TxnRes) func(txn *c
 			case "deletekey":
 				rows := w.M.RowsOfKey(a.Key)
 				err := txn.DeleteKey(a.Key)
-				if !touched[a.Key] && (err != nil) != (len(rows) == 0) {
+				if !touched[a.Key] && !w.Sched && (err != nil) != (len(rows) == 0) {
 					res.Viol = append(res.Viol, eng.Violation{Assert: "key/deletekey-result", Witness: "DeleteKey error differs from key existence",
 						Detail: fmt.Sprintf("DeleteKey(%q) err=%v, rows holding key=%v", a.Key, err, rows)})
 				}
@@ -670,7 +671,7 @@ func (p *pending) dropWritesAt(off uint32) {
 }
 
 func (w *World) noteInsert(off uint32, p *pending, res *TxnRes) {
-	if _, live := w.M.Live[off]; live {
+	if _, live := w.M.Live[off]; live && !w.Sched {
 		res.Viol = append(res.Viol, eng.Violation{Assert: "insert/offset-free", Witness: "insert returned the offset of a live row",
 			Detail: fmt.Sprintf("insert returned offset %d which holds a live row", off)})
 	}
@@ -941,3 +942,6 @@ func Mix(prev, next *Model, fromNext map[uint32]bool) *Model {
 	}
 	return c
 }
+
+// PendingBlocks lists the blocks in which a body buffered operations.
+func PendingBlocks(p *Pending) []uint32 { return p.blocks() }
